@@ -368,10 +368,10 @@ impl<'l> PktParser<'l> {
             qr: (flag1 & 0b1000_0000) != 0,
             opcode,
 
-            cd: (flag2 & 0b0010_0000) != 0,
-            ad: (flag2 & 0b0100_0000) != 0,
+            cd: (flag2 & 0b0001_0000) != 0,
+            ad: (flag2 & 0b0010_0000) != 0,
             ra: (flag2 & 0b1000_0000) != 0,
-            //           0b0001_0000
+            //           0b0100_0000 (Z)
             rcode: dnspkt::RCode(((flag2 & 0b0000_1111) as u16) | ((ercode as u16) << 4)),
             bufsize,
             edns_ver: ever,
